@@ -70,7 +70,42 @@ def parse_agreement(data: bytes):
             same = (got == st) if integ == "generic" else (set(got) == set(st))
             if not same:
                 return {"clause": "entry-points-differ", "summary": f"{integ}:{entry} gives {len(got)} statements, flat {len(st)}"}
+    # the entry points used TOGETHER on one file (a preview of the first statements with the flat parser, then a full load
+    # with another entry point, then the rest of the preview): every one must still give what it gives alone
+    import io
+    for integ in ("generic", "rdflib"):
+        mod = gparse_mod() if integ == "generic" else rparse_mod()
+        conv = T.event_from_generic if integ == "generic" else T.event_from_rdflib
+        try:
+            it = iter(mod.parse_jelly_flat(io.BytesIO(data)))
+            together = []
+            first = next(it, None)
+            if first is not None:
+                together.append(conv(first))
+            inner = {entry: T.norm_events(pj.parse(integ, entry, data)) for entry in ("to_graph", "grouped")}
+            together.extend(conv(x) for x in it)
+        except Exception as e:  # noqa: BLE001
+            return {"clause": "parser-raised", "summary": f"{integ}: flat parse suspended after its first item while to_graph / grouped "
+                                                          f"read the same bytes: {type(e).__name__}: {e}"}
+        if T.norm_events(together) != res[(integ, "flat")]:
+            return {"clause": "entry-points-differ", "summary": f"{integ}: a flat parse that was suspended while to_graph / grouped read the "
+                                                                f"same bytes gives other events than the flat parse alone"}
+        for entry, got in inner.items():
+            a, b = [e for e in got if e[0] == "stmt"], [e for e in res[(integ, entry)] if e[0] == "stmt"]
+            if (a != b) if integ == "generic" else (set(a) != set(b)):
+                return {"clause": "entry-points-differ", "summary": f"{integ}:{entry} run while a flat parse of the same bytes was "
+                                                                    f"suspended gives other statements than {entry} alone"}
     return None
+
+
+def gparse_mod():
+    from pyjelly.integrations.generic import parse as m
+    return m
+
+
+def rparse_mod():
+    from pyjelly.integrations.rdflib import parse as m
+    return m
 
 
 def parse_case(ctx, rng):
